@@ -4,6 +4,7 @@ import math
 import numpy as np
 from hypothesis import strategies as st
 
+from vlib import oracle
 from vlib.runner import Outcome, call
 
 ID = "C13"
@@ -304,6 +305,14 @@ def run_shape(case, out):
     m = np.asarray(m)
     if not out.check(m.shape == shape, f"{kind}:shape", f"{m.shape} vs {shape}"):
         return
+    if kind in ("sphere", "cylinder", "ellipsoid") and sum(shape) % 3 == 0:
+        fn3 = {"sphere": cryomask.spherical_mask, "cylinder": cryomask.cylindrical_mask, "ellipsoid": cryomask.ellipsoid_mask}[kind]
+        name = "mask.mrc" if sum(shape) % 2 else "mask.em"
+        out.label("shape:output_file")
+        ok3, m3 = call(out, f"{kind}_mask(output_name)", lambda: fn3(list(shape), gaussian=s, gaussian_outwards=outwards, output_name=name, **kw))
+        if ok3:
+            out.check(np.array_equal(np.asarray(m3), m), f"{kind}:result_changes_with_output_name", "")
+            check_mask_file(out, name, m, kind)
     if s == 0:
         skip = tie if kind in ("ellipsoid", "e_shell") else None
         compare_binary(out, m, exp, kind, f"shape={shape} centre={c} params={ {k: v for k, v in case.items() if k in ('radius', 'height', 'radii', 'thickness')} }", skip)
@@ -369,6 +378,17 @@ def make_mask(spec, shape):
     return bits.astype(spec["dtype"])
 
 
+def check_mask_file(out, path, m, sig):
+    """a mask written on request is the returned mask in single precision, same axis order"""
+    try:
+        fl = (oracle.em_read if path.endswith(".em") else oracle.mrc_read)(path)
+    except (ValueError, OSError, KeyError) as e:
+        out.fail(f"{sig}:output_file_unreadable", repr(e))
+        return
+    if out.check(tuple(fl["dims"]) == tuple(np.asarray(m).shape), f"{sig}:output_file_dims", f"{fl['dims']} vs {np.asarray(m).shape}"):
+        out.check(np.array_equal(fl["data"].astype(np.float32), np.asarray(m).astype(np.float32)), f"{sig}:output_file_does_not_hold_the_mask", "")
+
+
 def run_algebra(case, out):
     from cryocat import cryomap, cryomask
 
@@ -399,6 +419,12 @@ def run_algebra(case, out):
         return
     rf = r.astype(float)
     out.check(bool(np.all(np.isfinite(rf))) and rf.min() >= 0 and rf.max() <= 1, f"{op}:result_outside_0_1", lambda: f"{rf.min()} {rf.max()}")
+    if sum(shape) % 3 == 0:
+        out.label("algebra:output_file")
+        ok3, r3 = call(out, f"{op}(output_name)", lambda: fn(list(inputs), output_name="res.mrc"))
+        if ok3:
+            out.check(np.array_equal(np.asarray(r3), r), f"{op}:result_changes_with_output_name", "")
+            check_mask_file(out, "res.mrc", r, op)
     if not soft:
         B = [m.astype(bool) for m in keep]
         if op == "union":
